@@ -232,6 +232,40 @@ func c19(c *Ctx) {
 		})
 	}
 	R.Floor("C19.index-aligned.lookups", nret, 1)
+	// the batch fetched from the chain is assembled in index order: every guardian set built in
+	// the explorer's guardiansets package is created by the function that walks the indices — not
+	// by goroutines that append whenever their answer arrives (updateGuardianSets and
+	// NewGuardianSets take position k of a batch for index first+k)
+	ngs := 0
+	for _, f := range p.SrcFuncs(pkgXGS) {
+		eachInstr(f, func(i ssa.Instruction) {
+			al, ok := i.(*ssa.Alloc)
+			if !ok || !al.Heap {
+				return
+			}
+			pt, ok := al.Type().(*types.Pointer)
+			if !ok {
+				return
+			}
+			nt, ok := pt.Elem().(*types.Named)
+			if !ok || nt.Obj().Name() != "GuardianSet" || nt.Obj().Pkg() == nil || !strings.HasSuffix(nt.Obj().Pkg().Path(), "/node/pkg/common") {
+				return
+			}
+			ngs++
+			spawned := ""
+			for g := f; g != nil && g.Parent() != nil; g = g.Parent() {
+				eachInstr(g.Parent(), func(j ssa.Instruction) {
+					if gi, ok := j.(*ssa.Go); ok {
+						if mc, ok := gi.Call.Value.(*ssa.MakeClosure); ok && mc.Fn == ssa.Value(g) {
+							spawned = c.rel(p.Pos(gi.Pos()))
+						}
+					}
+				})
+			}
+			R.Check("C19.index-aligned", R.Key("C19.index-aligned", shortFn(f), "batch-built-in-order"), c.rel(p.Pos(al.Pos())), "guardian sets fetched from the chain are collected by the loop over the indices itself", spawned == "", "the set is built in a goroutine started at "+spawned+": the batch is in completion order, not index order")
+		})
+	}
+	R.Floor("C19.index-aligned.chain-sets", ngs, 1)
 	// … and GetGuardianSet hands out nothing but the result of lookup(index) for the index it was
 	// asked for (the "current" set is the requested one only until another update is appended)
 	if ggs := p.Method(pkgXGS, "GuardianSets", "GetGuardianSet"); ggs != nil {
